@@ -114,7 +114,9 @@ func ruleStatusWrites(c *Ctx, rule string) {
 			if fnShort(fn) == "(*internal/dkg.BoltStore).MigrateFromGroupfile" && name == "Complete" {
 				// allowed only when no DKG state exists yet for that beacon
 				g := false
-				for _, ci := range callsIn(fn, func(ci ssa.CallInstruction) bool { return strings.HasSuffix(calleeName(ci), "BoltStore).get") || methodName(ci) == "GetFinished" || methodName(ci) == "GetCurrent" }) {
+				for _, ci := range callsIn(fn, func(ci ssa.CallInstruction) bool {
+					return strings.HasSuffix(calleeName(ci), "BoltStore).get") || methodName(ci) == "GetFinished" || methodName(ci) == "GetCurrent"
+				}) {
 					if call, okc := ci.(*ssa.Call); okc && dominatesInstr(call, in) {
 						g = true
 					}
@@ -426,7 +428,9 @@ func ruleProposalValidation(c *Ctx, rule string) {
 					return false
 				}
 				isT := func(v ssa.Value) bool {
-					return hasOrigin(Origins(v), func(o Origin) bool { return o.Kind == "field" && strings.HasSuffix(o.Name, "ProposalTerms.GenesisTime") })
+					return hasOrigin(Origins(v), func(o Origin) bool {
+						return o.Kind == "field" && strings.HasSuffix(o.Name, "ProposalTerms.GenesisTime")
+					})
 				}
 				isC := func(v ssa.Value) bool {
 					return hasOrigin(Origins(v), func(o Origin) bool { return o.Kind == "field" && strings.HasSuffix(o.Name, "DBState.GenesisTime") })
@@ -444,7 +448,9 @@ func ruleProposalValidation(c *Ctx, rule string) {
 				okGS = false
 			}
 		}
-		for _, ci := range callsIn(fr, func(ci ssa.CallInstruction) bool { return strings.HasSuffix(calleeName(ci), "internal/util.ContainsAll") }) {
+		for _, ci := range callsIn(fr, func(ci ssa.CallInstruction) bool {
+			return strings.HasSuffix(calleeName(ci), "internal/util.ContainsAll")
+		}) {
 			call := ci.(*ssa.Call)
 			g := true
 			for _, r := range successReturns(fr) {
@@ -650,7 +656,9 @@ func ruleSaveFinished(c *Ctx, rule string) {
 		if puts < 2 {
 			for _, ci := range callsIn(sf, func(ci ssa.CallInstruction) bool { return strings.HasSuffix(calleeName(ci), "bbolt.DB).Update") }) {
 				for _, cl := range funcValuesOf(ci.Common().Args[1]) {
-					for _, x := range callsIn(cl, func(x ssa.CallInstruction) bool { return x.Common().StaticCallee() != nil && isSubjectPkg(fnPkgPath(x.Common().StaticCallee())) }) {
+					for _, x := range callsIn(cl, func(x ssa.CallInstruction) bool {
+						return x.Common().StaticCallee() != nil && isSubjectPkg(fnPkgPath(x.Common().StaticCallee()))
+					}) {
 						puts += len(callsIn(x.Common().StaticCallee(), func(y ssa.CallInstruction) bool { return strings.HasSuffix(calleeName(y), "bbolt.Bucket).Put") }))
 					}
 				}
@@ -667,14 +675,18 @@ func ruleFailurePath(c *Ctx, rule string) {
 	if c.Anchor(rule, "internal/dkg.(*Process).executeAndFinishDKG", fn != nil) {
 		start := callTo(fn, "internal/dkg.Process).startDKGExecution")
 		var sf ssa.Instruction
-		for _, ci := range callsIn(fn, func(ci ssa.CallInstruction) bool { return ci.Common().IsInvoke() && ci.Common().Method.Name() == "SaveFinished" }) {
+		for _, ci := range callsIn(fn, func(ci ssa.CallInstruction) bool {
+			return ci.Common().IsInvoke() && ci.Common().Method.Name() == "SaveFinished"
+		}) {
 			sf = ci.(ssa.Instruction)
 		}
 		ok := start != nil && sf != nil && guardedByOK(sf, start)
 		c.Ok(rule, "a failed DKG execution never writes the finished record", c.P.Pos(fn.Pos()), ok, "SaveFinished lies behind startDKGExecution's success edge")
 		// failure branch stores Failed via SaveCurrent
 		failOK := false
-		for _, ci := range callsIn(fn, func(ci ssa.CallInstruction) bool { return ci.Common().IsInvoke() && ci.Common().Method.Name() == "SaveCurrent" }) {
+		for _, ci := range callsIn(fn, func(ci ssa.CallInstruction) bool {
+			return ci.Common().IsInvoke() && ci.Common().Method.Name() == "SaveCurrent"
+		}) {
 			if derivesFromCall(ci.Common().Args[1], "internal/dkg.DBState).Failed", 0) {
 				failOK = true
 			}
@@ -710,7 +722,9 @@ func ruleFailurePath(c *Ctx, rule string) {
 		if isControlFn(fnn) || !strings.HasPrefix(fnShort(fnn), "(*internal/dkg.Process).Start") {
 			continue
 		}
-		for _, ci := range callsIn(fnn, func(ci ssa.CallInstruction) bool { return ci.Common().IsInvoke() && ci.Common().Method.Name() == "SaveCurrent" }) {
+		for _, ci := range callsIn(fnn, func(ci ssa.CallInstruction) bool {
+			return ci.Common().IsInvoke() && ci.Common().Method.Name() == "SaveCurrent"
+		}) {
 			in := ci.(ssa.Instruction)
 			saved := ci.Common().Args[1]
 			ok := false
